@@ -4,4 +4,4 @@ From Tele Require Import Lib.Bytes Lib.Str Lib.Assoc Model.Config Model.Approval
 Extraction Language OCaml.
 Extraction "report_model.ml" expand new_config has_goos has_goarch has_goversion has_program has_version
   has_counter has_counter_prefix has_stack rate create_report report_check local_check
-  name_unambiguousb approved_buildb run_uploader run_spec expired_now run_fetching.
+  name_unambiguousb approved_buildb run_uploader run_spec expired_now run_fetching week_reports week_files.
